@@ -290,6 +290,14 @@ static void one_case(const char **lines, int n, int p, int ng, int rg, int l, in
 	nvx_feed(feed, -1);
 	starved = 0;
 	nvx_exout_reset();
+	if (chain == 2) {
+		/* globals that are rejected (pattern that does not compile, range that does not resolve) leave
+		 * nothing behind: the global under test runs as it would without them */
+		ex_command("g/(a/s/$/?/");
+		ex_command("v/a{3,1}/d");
+		ex_command("99g/a/d");
+		xrow = 0;
+	}
 	ex_command(cmd);
 	n_glob++;
 	n_exec_total += execs;
@@ -300,6 +308,8 @@ static void one_case(const char **lines, int n, int p, int ng, int rg, int l, in
 	} else if (starved || nvx_pend_pos < nvx_pend_len) {
 		nv_viol("c15-executions", DESC ": the command list ran %s than the %d times the reference runs it (text blocks %s)", nv_esc(pre, -1), nv_esc(cmd, -1),
 			starved ? "more often" : "less often", execs, starved ? "ran out" : "left over");
+	} else if (chain == 2) {
+		/* result and executions compared above: that is all for this mode */
 	} else if (chain) {
 		static const char *follow[] = {"2,3v/zzz/s/$/!/", "%v/zzz/s/$/!/"};
 		int f;
@@ -369,6 +379,8 @@ static void run_case(long j)
 				for (rg = 0; rg < 4; rg++) {
 					one_case(lines, n, p, ng, rg, l, 0);
 					one_case(lines, n, p, ng, rg, l, 1);
+					if (rg == 0)
+						one_case(lines, n, p, ng, rg, l, 2);
 					if (++cases_since_clear > 500) {
 						lbuf_saved(xb, 1);
 						cases_since_clear = 0;
